@@ -148,6 +148,7 @@ def run(ctx):
         return t[0] in ('cast', 'conv') and 'unsigned' in str(t[1]) and (t[2] == parm or unsigned_of(t[2], parm) or (t[2][0] in ('cast', 'conv') and t[2][2] == parm))
     okcount = None
     okfull = None
+    unread = False
     for p in v.paths(max_visits=2):
         if p.exit in ('noreturn', 'cut', 'throw'):
             continue
@@ -159,22 +160,37 @@ def run(ctx):
         ws = [e for e in evs if e.kind in ('assign', 'incdec') and e.lhs[0] == 'var' and e.lhs[2] == 'range' and e.line <= rets[-1].line]
         draws_in_ret = any(x[0] == 'call' and 'mt19937_gen' in repr(x) for x in ex.subterms(rv))
         if any(x[0] == 'bin' and x[1] == '%' for x in ex.subterms(rv)):
-            # the modulo path: range = unsigned(max) - unsigned(min), then + 1, nothing else
-            shape = len(ws) == 2 and ws[0].kind == 'assign' and ws[1].kind == 'incdec' and ws[1].op in ('++', 'pre++', 'post++')
-            if not shape and len(ws) == 2 and ws[1].kind == 'assign':
-                shape = ws[1].op == '+=' and ws[1].rhs == ('int', 1)
-            diff = None
-            if ws and ws[0].kind == 'assign':
-                diff = ws[0].rhs
+            # the modulo path: range = unsigned(max) - unsigned(min), then + 1 (inline, ++ or += 1), nothing else
+            if not ws or ws[0].kind != 'assign':
+                unread = True
+                continue
+            diff = ws[0].rhs
+            while diff[0] in ('cast', 'conv') and not (diff[2][0] == 'var'):
+                diff = diff[2]
+            ones = 0
+            if diff[0] == 'bin' and diff[1] == '+' and ('int', 1) in (diff[2], diff[3]):
+                ones += 1
+                diff = diff[3] if diff[2] == ('int', 1) else diff[2]
                 while diff[0] in ('cast', 'conv') and not (diff[2][0] == 'var'):
                     diff = diff[2]
-            okd = diff is not None and diff[0] == 'bin' and diff[1] == '-' and unsigned_of(diff[2], pmax) and unsigned_of(diff[3], pmin)
-            okcount = (okcount is None or okcount) and bool(shape and okd)
+            for w_ in ws[1:]:
+                if w_.kind == 'incdec' and w_.op in ('++', 'pre++', 'post++'):
+                    ones += 1
+                elif w_.kind == 'assign' and w_.op == '+=' and w_.rhs == ('int', 1):
+                    ones += 1
+                else:
+                    unread = True
+            if not (diff[0] == 'bin' and diff[1] == '-' and pmax in ex.subterms(diff[2]) and pmin in ex.subterms(diff[3])):
+                unread = True
+                continue
+            okd = unsigned_of(diff[2], pmax) and unsigned_of(diff[3], pmin)
+            okcount = (okcount is None or okcount) and bool(ones == 1 and okd)
         elif draws_in_ret:
             t = rv
             while t[0] in ('cast', 'conv'):
                 t = t[2]
             okfull = (okfull is None or okfull) and t[0] == 'bin' and t[1] == '+' and any(pmin in ex.subterms(x) for x in (t[2], t[3]))
+    ctx.require(not unread and okcount is not None, 'R2', 'uniform_int: the computation of range is not in a form this rule reads')
     ctx.check(bool(okcount), 'R2', 'the number of values is unsigned(max) - unsigned(min), plus one, before the limit is computed', where(ui),
               'range is written %s' % ('as expected' if okcount else 'otherwise: max is never drawn without the + 1, and a signed difference overflows for wide ranges'), key='R2|uniform_int|number of values')
     if okfull is not None:
